@@ -152,11 +152,28 @@ pub fn run_sequential(case: &Case) -> RunOutput {
             out.violations.push(Violation { prop: leak(&case.prop), oracle: "bounded_liveness", tag: "step_budget_exhausted".into(), detail: format!("the run did not finish within {} scheduler steps", sim.inner.cfg.step_budget), op_index: 0 });
         }
         Err(SimStop::Escaped(what)) => out.harness_error = Some(format!("simulation escaped: {what}")),
+        Err(SimStop::MainPanicked(message)) => main_panicked(&case.prop, &message, &mut out),
     }
     out.nontrivial = nontrivial(&case.prop, &out);
     out.shape = shape_of(case, &out);
     let _ = std::fs::remove_dir_all(&dir);
     out
+}
+
+/// The scenario's own actor panicked. A panic raised inside the harness sources is a harness error (exit 2,
+/// no verdict). Anything else is code under test running on the client side of an exchange (the SDK decoding
+/// a response, building a request): for the properties about the client (C13, C20) that is a violation; for
+/// the others the run ends without a verdict and is counted.
+pub fn main_panicked(prop: &str, message: &str, out: &mut RunOutput) {
+    let location = message.rsplit(" @ ").next().unwrap_or("");
+    if location.contains("/verif/sim/") || location.starts_with("src/") {
+        out.harness_error = Some(format!("the scenario panicked: {message}"));
+    } else if prop == "C13" || prop == "C20" {
+        let tag = crate::harness::panic_tag(message);
+        out.violations.push(Violation { prop: leak(prop), oracle: "client_never_panics", tag, detail: format!("client-side code panicked during an exchange: {}", message.chars().take(300).collect::<String>()), op_index: 0 });
+    } else {
+        *out.stats.probes.entry("run_ended_by_client_side_panic").or_insert(0) += 1;
+    }
 }
 
 fn leak(s: &str) -> &'static str {
